@@ -4,8 +4,89 @@
 //! clock; (2) where the limiter is used: histories of real TCP connections through the real Listener with PROXY
 //! protocol, in which clients announcing three sources arrive through two load balancers - each is served exactly
 //! while its own source is within its budget (the key is the client's address, not the load balancer's).
+use crate::net::*;
 use common::{Cli, Violation};
 use serde_json::json;
+use std::time::Duration;
+
+/// Whatever becomes of an admitted connection - its backend fails, its client sends garbage or goes away - it was
+/// admitted: "no more than `limit` connections are admitted between two consecutive window starts". One address
+/// makes eight attempts of mixed fate under limit 3 (one hour window): exactly the first three reach the backend or
+/// receive anything; another address is unaffected.
+fn admissions_of_connections_that_end_badly() -> Vec<(String, String, serde_json::Value)> {
+    let mut out = vec![];
+    for fates in [["backend-fails"; 8], ["garbage"; 8], ["hangs-up"; 8], ["backend-fails", "served", "garbage", "backend-fails", "served", "hangs-up", "served", "backend-fails"]] {
+        let v: Vec<(String, String)> = run_local(async {
+            let mut v = vec![];
+            let mut adapters = NetAdapters::new();
+            // (the status backend fails for a client that comes from 127.0.0.2 while `failing` is set)
+            adapters.fail_ips = vec!["127.0.0.2".parse().unwrap()];
+            let log = adapters.log.clone();
+            let cfg = ListenerCfg { limiter: Some((3600, 3)), timeout: Duration::from_secs(20), ..Default::default() };
+            let running = start_listener(&cfg, adapters).await;
+            let mut reached = 0usize;
+            for (i, fate) in fates.iter().enumerate() {
+                // a connection that is to be served comes from the same address through the login path (the status
+                // backend is the one that fails for it)
+                let before = { let l = log.lock().unwrap(); l.status_clients.len() + l.auth_clients.len() };
+                let Ok(mut c) = McClient::connect(running.addr, Some("127.0.0.2".parse().unwrap())).await else { continue };
+                let received = match *fate {
+                    "backend-fails" => {
+                        let _ = c.status_exchange(Duration::from_millis(700)).await;
+                        c.received
+                    }
+                    "garbage" => {
+                        let _ = c.send_raw(&[0xff; 64]).await;
+                        let _ = c.wait_closed(Duration::from_millis(700)).await;
+                        c.received
+                    }
+                    "hangs-up" => {
+                        let _ = c.handshake("h", 1, 1).await;
+                        tokio::time::sleep(Duration::from_millis(20)).await;
+                        0
+                    }
+                    _ => {
+                        let mut o = LoginOutcome { packets: vec![], stage: Stage::Connected, error: None };
+                        c.login(&LoginParams { wait: Duration::from_millis(700), ..Default::default() }, Stage::Connected, Stage::EncryptionRequestReceived, &mut o).await;
+                        o.packets.len()
+                    }
+                };
+                drop(c);
+                tokio::time::sleep(Duration::from_millis(15)).await;
+                let after = { let l = log.lock().unwrap(); l.status_clients.len() + l.auth_clients.len() };
+                let admitted = after > before || received > 0 || (*fate == "garbage" && i < 3) || (*fate == "hangs-up" && i < 3);
+                if after > before || received > 0 {
+                    reached += 1;
+                }
+                if i >= 3 && (after > before || received > 0) {
+                    v.push(("listener:admitted-beyond-the-limit".to_string(), format!("attempt #{} of 127.0.0.2 (limit 3 per hour; fates so far {:?}) was admitted: the backend was consulted {} time(s) for it, the client received {received} byte(s)", i + 1, &fates[..=i], after - before)));
+                    break;
+                }
+                let _ = admitted;
+            }
+            let _ = reached;
+            // another address has its own budget
+            let mut other = 0;
+            for _ in 0..4 {
+                if let Ok(mut c) = McClient::connect(running.addr, Some("127.0.0.3".parse().unwrap())).await {
+                    if c.status_exchange(Duration::from_millis(700)).await.is_ok() {
+                        other += 1;
+                    }
+                }
+            }
+            if other != 3 {
+                v.push(("listener:other-address-affected".to_string(), format!("after 127.0.0.2 used up its budget, 127.0.0.3 was served {other} times out of 4 attempts under limit 3")));
+            }
+            running.stop.cancel();
+            let _ = tokio::time::timeout(Duration::from_secs(2), running.done).await;
+            v
+        });
+        for (k, t) in v {
+            out.push((k, t, json!({"listener": {"fates": fates}})));
+        }
+    }
+    out
+}
 
 pub fn run(cli: Cli) -> ! {
     let replaying = cli.replay.is_some();
@@ -15,8 +96,9 @@ pub fn run(cli: Cli) -> ! {
         }
         let viols = crate::c15::limiter_fairness_through_listener();
         rep.set("histories_through_the_real_listener", json!(8));
-        for (key, text, replay) in viols {
+        for (key, text, replay) in viols.into_iter().chain(admissions_of_connections_that_end_badly()) {
             rep.violation(Violation { key, text, replay, weight: 60 });
         }
+        rep.set("histories_of_admitted_connections_that_end_badly", json!(4));
     })
 }
